@@ -8,13 +8,30 @@
 //!   `route D <plan in wire order> [T:…] B:<witness stream bits>`    `RedeemNode::decode(program bytes, stream)`
 //!   → `ok W:i:<target type>:<compact bits>…` (every witness node of the returned program, by plan index) | `err` | `err-exec`
 //! oracle (implementation alone), for every route: ok / error / panic; for ok: every witness value
-//! `is_of_type` the `arrow().target` of its node; `to_vec_with_witness` + `RedeemNode::decode` of
-//! the program's own serialisation succeeds, returns the same values and re-encodes to the same
-//! bytes; `BitMachine::exec` does not panic (debug assertions are on).  Across routes: the text
-//! route gives what the construction route gives; `finalize_pruned` gives what pruning the result
-//! of `finalize_unpruned` gives.  Against the documented conversion (`Value::prune`, reference
-//! implementation on abstract values below): a candidate of a type above the node's type in the
-//! prune order is never rejected, the value carried is the converted candidate.
+//! `is_of_type` the `arrow().target` of its node (`witness-ill-typed`); the target types the program
+//! annotates its witness nodes with are the program's principal types — what a decoder infers —
+//! (`pruned-witness-type-not-principal` for `finalize_pruned`, found by this property: before the
+//! repair "pruning re-infers the types of the pruned program in its own context" a witness node
+//! shared between a pruned and an executed branch kept the type the pruned branch forced; fixed
+//! case in `regression_cases`); `to_vec_with_witness` + `RedeemNode::decode` of the program's own
+//! serialisation succeeds (`own-serialisation-rejected`), returns the same values
+//! (`serialisation-changes-values`) and re-encodes to the same bytes; `BitMachine::exec` does not
+//! panic (`panic-exec`; debug assertions are on); no route panics (`panic-finalize`,
+//! `panic-finalize-pruned`, `panic-decode`, `panic-forest`).  Across routes (`route-disagree`):
+//! the text route gives what the construction route gives; `finalize_pruned` gives what pruning
+//! the result of `finalize_unpruned` gives, reports an error when `finalize_unpruned` does, and
+//! keeps the commitment root on both routes.  Against the documented conversion (`Value::prune`,
+//! reference implementation on abstract values below): a candidate of a type above the node's
+//! type in the prune order is never rejected (`well-typed-rejected`), the value carried is the
+//! converted candidate, also after pruning (`conversion-differs`); pruned types are below the
+//! unpruned ones (`pruned-type-not-smaller`); the decoder accepts only the canonical stream
+//! (`noncanonical-accepted`).
+//!
+//! Not a failure, counted: a witness node that the plan shares between two parents is two witness
+//! nodes in the text form (commit-time sharing never merges sub-expressions with witnesses) — the
+//! map then has the value under both names; the text form merges nodes that had equal identity
+//! roots at commitment time, so after pruning the text route's program may be typed differently
+//! from the construction route's (both principal for their own DAG).
 
 use crate::codec::{self, Dec};
 use crate::ctx::{catch, Ctx, Rng};
@@ -778,6 +795,7 @@ pub fn one(ctx: &mut Ctx, c: &Case) -> bool {
         }
         Ok(red) => {
             ctx.count(&format!("reach:U:{kind}:ok"));
+            check_redeem(ctx, "U", &line_u, red, &env);
             match align(plan, red) {
                 Err(e) => ctx.fail("program-shape", &line_u, &format!("finalize_unpruned: {e}")),
                 Ok(al) => {
@@ -797,7 +815,6 @@ pub fn one(ctx: &mut Ctx, c: &Case) -> bool {
                     al_u = Some(al);
                 }
             }
-            check_redeem(ctx, "U", &line_u, red, &env);
             if ctx.want_sample() && focus_ty != T::One {
                 ctx.sample(&format!("{line_u} -> {}", al_u.as_ref().map(|a| answer_aligned(a)).unwrap_or_default()));
             }
@@ -821,7 +838,8 @@ pub fn one(ctx: &mut Ctx, c: &Case) -> bool {
             }
             (Ok(_), Err(e)) if e.starts_with("exec:") => {
                 ctx.op(&format!("route P P {}{}{} E:fail", plan.text(), tables, vtoks), "err-exec");
-                ctx.count(&format!("reach:P:{kind}:err-exec"));
+                ctx.count("reach:P:execution-failed");
+                ctx.count(&format!("cross:P:{kind}:err-exec"));
             }
             (Ok(_), Err(e)) => ctx.fail("route-disagree", &line_u, &format!("finalize_unpruned returns a program, finalize_pruned reports {e}")),
             (Ok(red), Ok(pruned)) => {
@@ -854,7 +872,9 @@ pub fn one(ctx: &mut Ctx, c: &Case) -> bool {
                     Ok(al) => {
                         ctx.op(&line_p, &answer_aligned(&al));
                         let kept = al[c.focus].is_some();
-                        ctx.count(&format!("reach:P:{kind}:ok:{}", if kept { "focus-executed" } else { "focus-pruned" }));
+                        ctx.count(&format!("reach:P:{kind}:ok"));
+                        ctx.count(if kept { "reach:P:focus-on-executed-branch" } else { "reach:P:focus-on-pruned-branch" });
+                        ctx.count(&format!("cross:P:{kind}:ok:{}", if kept { "focus-executed" } else { "focus-pruned" }));
                         // the value after pruning is the candidate converted to the pruned type
                         for (i, n) in al.iter().enumerate() {
                             if let Some(Inner::Witness(w)) = n.as_ref().map(|n| n.inner()) {
@@ -955,7 +975,11 @@ pub fn one(ctx: &mut Ctx, c: &Case) -> bool {
                                 Err(e) if e.starts_with("exec:") => "err-exec",
                                 Err(_) => "err",
                             };
-                            ctx.count(&format!("reach:FP:{kind}:{verdict}"));
+                            if verdict == "err-exec" {
+                                ctx.count("reach:FP:execution-failed");
+                            } else {
+                                ctx.count(&format!("reach:FP:{kind}:{verdict}"));
+                            }
                             if let Some(rp) = &res_p {
                                 match (rp, &fp) {
                                     (Ok(a), Ok(b)) => {
@@ -1141,7 +1165,7 @@ pub fn run(ctx: &mut Ctx) {
     for c in regression_cases() {
         one(ctx, &c);
     }
-    let n = ctx.scale(3000, 50_000);
+    let n = ctx.scale(4000, 60_000);
     let mut done = 0;
     let mut it = 0u64;
     while done < n && it < 20 * n {
